@@ -23,12 +23,16 @@ pub mod c_plcdr;
 pub mod c_auth;
 #[cfg(feature = "security")]
 pub mod c_access;
+#[cfg(feature = "security")]
+pub mod c_mr;
 pub mod hostile;
 pub mod c_hostile;
 pub mod stk;
 pub mod c_stack;
 pub mod c_lease;
 pub mod c_sched;
+pub mod stk2;
+pub mod c_e2e;
 
 use std::path::PathBuf;
 
@@ -65,6 +69,8 @@ pub fn main_entry() -> i32 {
     "C02" => c_link::run_c02(&args),
     "C04" => c_wtr::run_c04(&args),
     "C06" => c_hostile::run_c06(&args),
+    "C07" => c_e2e::run_c07(&args),
+    "C07probe" => c_e2e::run_probe(&args),
     "C08" => c_api::run_c08(&args),
     "C10" => c_qos::run_c10(&args),
     "C11" => c_stack::run_c11(&args),
@@ -80,6 +86,8 @@ pub fn main_entry() -> i32 {
     "C09" => c_api::run_c09(&args),
     #[cfg(feature = "security")]
     "C16" => c_crypto::run_c16(&args),
+    #[cfg(feature = "security")]
+    "C17" => c_mr::run_c17(&args),
     other => {
       eprintln!("unknown check {other}");
       2
